@@ -12,6 +12,9 @@ pub struct C09 {
     probes: u64,
     nontrivial: bool,
     seen_states: std::collections::BTreeSet<u64>,
+    /// an unbonding entry of the hub was slashed at some point of this history (then arrivals may fall short of what
+    /// was undelegated and the firm-value bound below does not apply)
+    unbonding_slashed: bool,
 }
 
 const ID: &str = "C09";
@@ -37,7 +40,7 @@ pub fn prop() -> HistProp {
         cfgs: cfg_strategy,
         quick: 3000,
         thorough: 40000,
-        mk: |_, _, _| Box::new(C09 { probes: 0, nontrivial: false, seen_states: Default::default() }),
+        mk: |_, _, _| Box::new(C09 { probes: 0, nontrivial: false, seen_states: Default::default(), unbonding_slashed: false }),
         extra: None,
         many_batches: 3,
         zero_arrival: 1,
@@ -200,9 +203,44 @@ impl Checker for C09 {
                 }
             }
         }
+        if let ROp::Slash { unbonding: true, .. } = &step.rop {
+            if !cx.pre.unbondings.is_empty() {
+                self.unbonding_slashed = true;
+            }
+        }
         // ---------------- withdrawals of the history itself: with released claims worth >= 1 unit they must succeed
         if let ROp::Withdraw { user: u } = &step.rop {
             let val = released_value_of(o0, u);
+            // ... and, while no unbonding stake was ever slashed, so must every claim in a batch whose unbonding period
+            // has elapsed, at (almost) its value at the rate the batch was undelegated for: whatever happened to the
+            // batch's release in between (it may have been released by somebody else's withdrawal, at any second)
+            if !o0.params.paused.unwrap_or(false) && !self.unbonding_slashed {
+                let (now, unb) = (cx.pre.time, o0.params.unbonding_period);
+                let (mut firm, mut n) = (0u128, 0u128);
+                for (b, x, y) in o0.reqs(u) {
+                    if let Some(h) = o0.hist(*b) {
+                        if h.time + unb <= now {
+                            firm += mul_floor(*x, h.bsei_applied_exchange_rate) + mul_floor(*y, h.stsei_applied_exchange_rate);
+                            n += 1;
+                        }
+                    }
+                }
+                let slack = 4 * n + 4;
+                if firm >= 8 + slack {
+                    out.count("withdrawals_with_matured_unslashed_claims", 1);
+                    let paid = if step.ok() { bank_sent(step.evs(), HUB, u, USEI) } else { 0 };
+                    if paid + slack < firm {
+                        out.fail(v(
+                            if step.ok() { "withdraw-pays-less-than-matured-unslashed-claims" } else { "withdraw-fails-with-matured-unslashed-claims" },
+                            format!(
+                                "{}: no unbonding stake was ever slashed; {} holds {} claims in batches whose unbonding period has elapsed, worth {} at the rates they were undelegated for ({:?}), but was paid {}{}",
+                                step.desc(), u, n, firm, o0.reqs(u), paid, if let Err(e) = &step.res { format!(": {}", e) } else { String::new() }
+                            ),
+                        ));
+                        return;
+                    }
+                }
+            }
             if !o0.params.paused.unwrap_or(false) {
                 if val >= 1 {
                     out.count("withdrawals_with_released_claims", 1);
